@@ -12,6 +12,7 @@ import (
 	"net"
 	"net/netip"
 	"os"
+	"sort"
 	"syscall"
 	"testing"
 	"time"
@@ -178,11 +179,20 @@ func TestVerifC05(t *testing.T) {
 	// part "loop": the real advertiser in virtual time.  With min >= 6 s every
 	// unsolicited RA after the second is transmitted at the instant it is
 	// requested, so the waits are the gaps between multicast transmissions.
-	c05SlowConsumer(t, r)
+	if part != "race" {
+		c05SlowConsumer(t, r)
+	}
 	rr := r.Rand("c05", "loop")
 	n := r.Pick(200, 5000)
+	if part == "race" {
+		n = r.Pick(60, 900)
+	}
+	_ = rr
 	for k := 0; k < n; k++ {
 		id := fmt.Sprintf("loop/%d", k)
+		// every draw of a scenario comes from a generator of its own, so that a
+		// scenario is the same whichever shard runs it and when it is replayed alone
+		rr := r.Rand("c05", "loop", id)
 		var min, max time.Duration
 		switch k % 3 {
 		case 0: // min = max < 9 s (default min), whole and fractional seconds
@@ -203,6 +213,10 @@ func TestVerifC05(t *testing.T) {
 		if k%3 == 0 && k%2 == 0 && k%4 == 0 {
 			busy = 1 + k/12%3
 		}
+		// in the parallel pass one scenario in three (min < max) is also solicited
+		// from unicast sources at scattered instants: the random draw for an answer's delay and the
+		// random draw for the next unsolicited wait are made by different goroutines
+		solicited := part == "race" && k%3 == 1
 		if !r.Mine(id) {
 			continue
 		}
@@ -271,6 +285,22 @@ func TestVerifC05(t *testing.T) {
 			if busy == 1 {
 				go burstAt(0)
 			}
+			if solicited {
+				r.Count("loops_with_scattered_unicast_solicitations", 1)
+				offs := make([]time.Duration, 12)
+				for j := range offs {
+					offs[j] = time.Duration(rr.Int63n(int64(horizon)))
+				}
+				sort.Slice(offs, func(a, b int) bool { return offs[a] < offs[b] })
+				go func() {
+					for j, o := range offs {
+						if d := o - h.tr.Now(); d > 0 {
+							time.Sleep(d)
+						}
+						h.rs(netip.MustParseAddr(fmt.Sprintf("fe80::c:%x", j+1)), j%2 == 0)
+					}
+				}()
+			}
 			h.startAdvertiser()
 			switch busy {
 			case 2:
@@ -303,6 +333,19 @@ func TestVerifC05(t *testing.T) {
 		})
 		if pm != "" {
 			r.Violation(id, "bubble-panic", pm, map[string]any{"min": lo.String(), "max": hi.String()})
+			continue
+		}
+		if part == "race" {
+			// The parallel pass is for the race detector (and panics): with several
+			// processors the known lost wake-up K1 of the scheduling group can hold a
+			// transmission back, so transmission instants say nothing about the waits
+			// chosen.  The waits are judged in the deterministic `loop` part.
+			if !returned {
+				r.Violation(id, "no-return", "Run did not return after cancel", map[string]any{"min": lo.String(), "max": hi.String()})
+				continue
+			}
+			r.Count("race_part_scenarios", 1)
+			r.Nontrivial(id)
 			continue
 		}
 		var ts, ts1 []time.Duration // ts: the last generation; ts1: the one before the link flap
